@@ -445,6 +445,35 @@ def rule_e7(ctx):
     if n < 3:
         raise Unrecognised("C19.E7", CLI, f"only {n} file reads found (expected >= 3: read_files, parse_constraint, parse_grammar)")
     ctx.inventory["file_reads"] = n
+    # positioning calls on user-supplied streams: `-` / /dev/stdin fed through a pipe is not seekable -> io.UnsupportedOperation (an OSError and ValueError)
+    SEEK_CATCHERS = {"OSError", "IOError", "ValueError", "io.UnsupportedOperation", "UnsupportedOperation", "Exception", "BaseException"}
+
+    def seek_sites(fn):
+        own = {src(w.optional_vars) for w in ast.walk(fn) if isinstance(w, ast.withitem) and w.optional_vars is not None and isinstance(w.context_expr, ast.Call) and call_name(w.context_expr) == "open"}
+        # files the command opened itself (regular files on disk) are seekable; only streams handed in by the user are at stake
+        return [c for c in calls_in(fn, include_nested=False) if isinstance(c.func, ast.Attribute) and c.func.attr in ("seek", "tell", "truncate") and src(c.func.value) not in own]
+
+    n_seek = 0
+    for q, fn in m.functions():
+        for c in seek_sites(fn):
+            n_seek += 1
+            handler = None
+            cur, p_ = c, parent(c)
+            while p_ is not None and cur is not fn and handler is None:
+                if isinstance(p_, ast.Try) and cur in p_.body:
+                    for h in p_.handlers:
+                        names = {"BaseException"} if h.type is None else {dotted(e) for e in (h.type.elts if isinstance(h.type, ast.Tuple) else [h.type])}
+                        if names & SEEK_CATCHERS:
+                            handler = h
+                            break
+                cur, p_ = p_, parent(p_)
+            ctx.check(handler is not None, "E7-seekable", f"{CLI}:{q}", f"{src(c)[:50]} guarded against io.UnsupportedOperation", site(c),
+                      f"`{src(c)[:50]}` is applied to a user-supplied stream: an input given as `-` or /dev/stdin through a pipe is not seekable, the call raises io.UnsupportedOperation "
+                      "(not a UnicodeDecodeError) and `isla solve ... | isla check g.bnf c.isla -` ends with a traceback", "handler for OSError / ValueError")
+    ctx.inventory["stream_positioning_calls"] = n_seek
+    fx = ast.parse("def read_files(files):\n    try:\n        return {f.name: (f.seek(0), f.read())[1] for f in files}\n    except UnicodeDecodeError:\n        sys.exit(65)\n")
+    if len(seek_sites(fx.body[0])) != 1:
+        raise Unrecognised("C19.E7", "fixture", "positive fixture (seek on a stream) did not fire")
 
 
 def rule_e8(ctx):
